@@ -611,3 +611,101 @@ func ReproStackSource() (bool, string) {
 	}
 	return false, "same order as the parsed stack"
 }
+
+// RunC20ForeignLiteral: a well-formed source in which one literal is not of
+// the element (or value) type of the constructor.  The collection cannot hold
+// it as parsed, so the call either panics or - if an implementation chooses to
+// convert - returns contents that print like the directly parsed ones; what it
+// must not do is return something else in its place.
+func RunC20ForeignLiteral(c *core.Ctx) {
+	r := c.Rng
+	n := r.Range(1, 6)
+	at := r.Intn(n)
+	foreign := []string{"0x2", "1.5", "\"x\"", "true", "'a'", "(1.0+2.0i)"}[r.Intn(6)]
+	lits := make([]string, n)
+	for i := range lits {
+		lits[i] = fmt.Sprint(10 + i)
+	}
+	kind := []string{"List", "Set", "Stack", "Queue", "Array", "Catalog", "Map"}[r.Intn(7)]
+	var src string
+	if kind == "Catalog" || kind == "Map" {
+		parts := make([]string, n)
+		for i := range lits {
+			v := lits[i]
+			if i == at {
+				v = foreign
+			}
+			parts[i] = fmt.Sprintf("\"k%d\": %s", i, v)
+		}
+		src = "[" + strings.Join(parts, ", ") + "](" + kind + ")"
+	} else {
+		lits[at] = foreign
+		src = "[" + strings.Join(lits, ", ") + "](" + kind + ")"
+	}
+	cs := map[string]any{"kind": kind, "element": "int64", "source": src, "foreign_literal": foreign}
+	var got []string
+	pan, noret, _ := Try(func() {
+		switch kind {
+		case "List":
+			got = sprintAll(mod.List[int64](src).AsArray())
+		case "Set":
+			got = sprintAll(mod.Set[int64](src).AsArray())
+		case "Stack":
+			got = sprintAll(mod.Stack[int64](src).AsArray())
+		case "Queue":
+			got = sprintAll(mod.Queue[int64](src).AsArray())
+		case "Array":
+			got = sprintAll(mod.Array[int64](src).AsArray())
+		case "Catalog":
+			for _, a := range mod.Catalog[string, int64](src).AsArray() {
+				got = append(got, fmt.Sprint(a.GetKey(), ":", a.GetValue()))
+			}
+		default:
+			for _, a := range mod.Map[string, int64](src).AsArray() {
+				got = append(got, fmt.Sprint(a.GetKey(), ":", a.GetValue()))
+			}
+			sort.Strings(got)
+		}
+	})
+	if noret {
+		c.Violation("module."+kind+"/foreign-literal/no-return", "the constructor did not return", cs)
+		return
+	}
+	if pan {
+		c.Cover("foreign-literal-rejected")
+		c.Distinct(core.HashStr(src))
+		return
+	}
+	// it returned: the contents must be those of the directly parsed source
+	var want []string
+	if pan2, _, msg := Try(func() {
+		switch p := mod.ParseSource(src).(type) {
+		case col.Sequential[col.AssociationLike[any, any]]:
+			for _, a := range p.AsArray() {
+				want = append(want, fmt.Sprint(a.GetKey(), ":", a.GetValue()))
+			}
+			if kind == "Map" {
+				sort.Strings(want)
+			}
+		case col.Sequential[any]:
+			want = sprintAll(p.AsArray())
+		}
+	}); pan2 {
+		c.Inconclusive("C20 foreign literal: the source could not be parsed directly: " + msg)
+		return
+	}
+	if fmt.Sprint(got) != fmt.Sprint(want) {
+		c.Violation("module."+kind+"/foreign-literal/replaced", fmt.Sprintf("the constructor accepted a source holding a literal of another type and returned %v where parsing the source directly gives %v", got, want), cs)
+		return
+	}
+	c.Cover("foreign-literal-converted")
+	c.Distinct(core.HashStr(src))
+}
+
+func sprintAll[V any](vs []V) []string {
+	out := make([]string, len(vs))
+	for i, v := range vs {
+		out[i] = fmt.Sprint(v)
+	}
+	return out
+}
